@@ -207,3 +207,10 @@ func init() {
 	libPure["(encoding/asn1.ObjectIdentifier).Equal"] = m
 	libPure["asn1.OIDEqual"] = m
 }
+
+// bytes.Equal is named as a function of the two slice values (used to state which comparison decided; sound only
+// where the compared memory is not written in between, which holds for pins and digests).
+func init() {
+	m := libModel{uf: "bytes_Equal", ret: "Bool", retGo: "bool"}
+	libPure["bytes.Equal"] = m
+}
